@@ -67,6 +67,10 @@ def run(tier, seed):
         cfg["backend"] = b
         out = corecheck.validate(chk, cfg, gen.STD_TREE, [s for _, s in fam], label="faults:" + b)
         nontrivial += sum(1 for sch, r, m, n in out if any(e.get("res") == "fault" for e in r["trace"] if e["ev"].startswith("Fs")))
+    # a backend whose close() returns a true value (nothing says it may not): the faults inside transfers once more
+    xf = [s for f, s in fam if any(k in f for k in ("retr", "stor", "appe"))]
+    cfg = dict(dev_cfg(False), close_returns=True)
+    corecheck.validate(chk, cfg, gen.STD_TREE, xf if tier != "quick" else xf[::3], label="faults:close-returns-true")
     chk.cov["rule"] = ("scripted corpus x the k-th backend call (or the n-th call of each operation kind) failing, with a "
                        "second session observing; non-trivial = the armed fault actually fired in that execution")
     chk.cov["distinct_nontrivial"] = nontrivial
